@@ -129,11 +129,20 @@ fn check_list(list: &[Bits], mutate: u8, obs: &mut Obs) -> u64 {
         let level = list[0].len - 1;
         let mut bytes = spec_encode(level, list);
         let mut canonical = true;
-        match mutate % 5 {
+        match mutate % 7 {
             1 if list[0].len % 8 != 0 => {
                 // non-zero trailing bit in the last prefix
                 let l = bytes.len();
                 bytes[l - 1] |= 1;
+                canonical = false;
+            }
+            5 | 6 if list[0].len % 8 != 0 && list.len() >= 2 => {
+                // non-zero trailing bit in a prefix that is NOT the last one (each prefix has its
+                // own padding)
+                let plen = list[0].len.div_ceil(8);
+                let k = (mutate as usize / 7) % (list.len() - 1);
+                let pad = 8 - list[0].len % 8;
+                bytes[6 + (k + 1) * plen - 1] |= 1 << ((mutate as usize / 7) % pad);
                 canonical = false;
             }
             2 => {
@@ -190,13 +199,24 @@ fn strings_upto3() -> Vec<Bits> {
 fn history_strategy() -> BoxedStrategy<Case> {
     // structured histories for bits ≤ 64: extensions, one non-extending prefix, equal level after
     // a jump, decreasing level, a parameter that extends the FIRST but not the LAST
-    (2usize..=64, prop::collection::vec((any::<u16>(), prop::collection::vec((any::<u8>(), any::<u64>()), 1..=5)), 1..=6), any::<u8>(), any::<u64>())
+    (prop_oneof![3 => 2usize..=64, 1 => 65usize..=140], prop::collection::vec((any::<u16>(), prop::collection::vec((any::<u8>(), any::<u64>()), 1..=5)), 1..=6), any::<u8>(), any::<u64>())
         .prop_map(|(bits, steps, twist, seed)| {
             let mut params: Vec<P> = vec![];
             let mut level = 0usize;
             for (k, (adv, elems)) in steps.iter().enumerate() {
                 // mostly increasing levels
-                level = if k == 0 { idx16(*adv, bits) } else { (level + 1 + idx16(*adv, 6)).min(bits - 1) };
+                // mostly small steps; sometimes a jump over a word-size number of levels (the gap
+                // between consecutive parameters is unconstrained by the rule)
+                level = if k == 0 {
+                    if adv % 3 == 0 { idx16(*adv, bits.min(4)) } else { idx16(*adv, bits) }
+                } else {
+                    let gap = match adv % 11 {
+                        0 => [7usize, 8, 15, 16, 31, 32, 33, 61, 62, 63, 64, 65, 127, 128][(*adv as usize / 11) % 14],
+                        1 => 1 + idx16(*adv, bits),
+                        _ => 1 + idx16(*adv, 6),
+                    };
+                    (level + gap).min(bits - 1)
+                };
                 let len = level + 1;
                 let mut set: Vec<Bits> = vec![];
                 for (src, s) in elems {
@@ -265,7 +285,7 @@ impl Check for C20 {
     type Case = Case;
     const ID: &'static str = "C20";
     fn rule(&self) -> String {
-        "(enumerated) the universe of all 273 parameters over ≤ 3 bits (every non-empty prefix set at every level): is_agg_param_valid(cur, prev) for every cur and every history prev of length ≤ 2 (quick: ≤ 1, plus all length-2 histories for a third of the universe), against a reference written from the property text on plain bit vectors; every list of ≤ 4 prefixes of 0..3 bits (repeats, unsorted, mixed lengths; 54 240 lists) through try_from_prefixes, the encoder (against the specified layout) and the decoder, with non-canonical variants (trailing bits, trailing bytes, count ± 1); Prio3/Prio2 single-use rule for histories of length 0..5. (generated) structured histories up to 64 bits with twists: equal level, lower level, extension of the first but not the last parameter, one stray prefix; sampled long histories over the small universe. Non-trivial = non-empty history, or a list failing the predicate; enumerated items are distinct by construction".into()
+        "(enumerated) the universe of all 273 parameters over ≤ 3 bits (every non-empty prefix set at every level): is_agg_param_valid(cur, prev) for every cur and every history prev of length ≤ 2 (quick: ≤ 1, plus all length-2 histories for a third of the universe), against a reference written from the property text on plain bit vectors; every list of ≤ 4 prefixes of 0..3 bits (repeats, unsorted, mixed lengths; 54 240 lists) through try_from_prefixes, the encoder (against the specified layout) and the decoder, with non-canonical variants (trailing bits, trailing bytes, count ± 1); Prio3/Prio2 single-use rule for histories of length 0..5. (generated) structured histories up to 140 bits, with level gaps from 1 to beyond a machine word (7…128) between consecutive parameters, with twists: equal level, lower level, extension of the first but not the last parameter, one stray prefix; sampled long histories over the small universe. Non-trivial = non-empty history, or a list failing the predicate; enumerated items are distinct by construction".into()
     }
     fn strategy(&self, _tier: Tier) -> BoxedStrategy<Case> {
         let small_hist = (any::<u16>(), prop::collection::vec(any::<u16>(), 2..=5)).prop_map(|(c, h)| {
@@ -431,7 +451,7 @@ impl Check for C20 {
                     }
                 }
                 for (k, l) in lists.iter().enumerate() {
-                    n += check_list(l, (k % 5) as u8, &mut obs);
+                    n += check_list(l, (k % 35) as u8, &mut obs);
                     if !list_ok(l) {
                         nt += 1;
                     }
